@@ -147,13 +147,24 @@ def run(prog: Program, res: Result) -> None:
     # results: best_fit_results[-1][trial_columns[idx]] = g_best.cost
     inner_for = [n for n in ast.walk(loop) if isinstance(n, ast.For) and n is not loop]
     oks = False
+    # {"params": params, **trial_costs}: a per-row dict created empty in each iteration of the grid loop and merged into the row
+    spread = set()
+    if isinstance(row_dict, ast.Dict):
+        for k_, v_ in zip(row_dict.keys, row_dict.values):
+            if k_ is None and isinstance(v_, ast.Name):
+                binds = [st for st in ast.walk(ex.node) if isinstance(st, ast.Assign) and len(st.targets) == 1
+                         and isinstance(st.targets[0], ast.Name) and st.targets[0].id == v_.id]
+                stores = [x for x in ast.walk(ex.node) if isinstance(x, ast.Name) and x.id == v_.id and isinstance(x.ctx, ast.Store)]
+                if len(binds) == 1 and len(stores) == 1 and binds[0] in loop.body and isinstance(binds[0].value, ast.Dict) \
+                        and not binds[0].value.keys and rows and binds[0].lineno < rows[0].lineno:
+                    spread.add(v_.id)
     if len(inner_for) == 1 and isinstance(inner_for[0].target, ast.Tuple) and len(inner_for[0].target.elts) == 3:
         idx, best, _loss = [e.id if isinstance(e, ast.Name) else None for e in inner_for[0].target.elts]
         for n in ast.walk(inner_for[0]):
             if isinstance(n, ast.Assign) and isinstance(n.targets[0], ast.Subscript):
                 t = n.targets[0]
                 row_ok = (isinstance(t.value, ast.Subscript) and dotted(t.value.value) == acc_name and norm(t.value.slice) == "-1") or \
-                    (row_name is not None and dotted(t.value) == row_name)
+                    (row_name is not None and dotted(t.value) == row_name) or (dotted(t.value) in spread and inner_for[0].end_lineno < rows[0].lineno)
                 if row_ok and isinstance(t.slice, ast.Subscript) and dotted(t.slice.value) == "trial_columns" \
                         and isinstance(t.slice.slice, ast.Name) and t.slice.slice.id == idx and dotted(n.value) == f"{best}.cost":
                     oks = True
